@@ -830,9 +830,24 @@ class Interp:
     def _for(self, st, env, mod):
         it = st.iter
         # idiom: for j in np.where(MASK)[0]
-        if (isinstance(it, ast.Subscript) and isinstance(it.value, ast.Call) and (chain(it.value.func) or '').endswith('where')
+        if (isinstance(it, ast.Subscript) and isinstance(it.value, ast.Call) and (chain(it.value.func) or '').split('.')[-1] in ('where', 'nonzero')
                 and up(it.slice) == '0' and len(it.value.args) == 1):
             m = self.expr(it.value.args[0], env, mod)
+            if isinstance(m, Arr) and m.ndim == 1 and m.mask is None and m.dims[0] in self.axis_len and self.axis_len[m.dims[0]] <= 16 and isinstance(st.target, ast.Name) and not st.orelse:
+                # an axis of a few known positions: position k is visited exactly when the mask holds there
+                for k_ in range(self.axis_len[m.dims[0]]):
+                    test_ = ast.copy_location(ast.Subscript(value=it.value.args[0], slice=ast.Constant(value=k_), ctx=ast.Load()), it)
+                    body_ = [ast.copy_location(ast.Assign(targets=[ast.Name(id=st.target.id, ctx=ast.Store())], value=ast.Constant(value=k_), lineno=st.lineno), st)] + list(st.body)
+                    if_ = ast.fix_missing_locations(ast.copy_location(ast.If(test=test_, body=body_, orelse=[]), st))
+                    sig = self._if(if_, env, mod)
+                    if sig:
+                        if sig[0] in ('return', 'raise'):
+                            return sig
+                        u_ = Unk('a loop over the positions of a mask left by %s' % sig[0], st)
+                        self._poison(st, env, u_)
+                        env['__tainted__'] = u_
+                        return None
+                return None
             if isinstance(m, Arr) and m.ndim == 1 and m.mask is not None:
                 # positions in a compressed selection (x[sel] == value): they count the selected elements, not the positions of the axis
                 self.store(st.target, Pinned('sel:' + alg.show(m.mask, 400), m.poly), env, mod)
@@ -1289,6 +1304,20 @@ class Interp:
                 elif isinstance(v, Arr) and v.ndim == 1 and not _is_boolean(v.poly) and lab is not None and v.dims == (lab,):
                     scatters.append((lab, v.poly))
                     new_dims.append(cur_dims[ax]); ax += 1
+                elif isinstance(v, int) and not isinstance(v, bool) and len(chain_nodes) == 1 and len(idx) == 1 and old.ndim == 1 and old.mask is None \
+                        and lab in self.axis_len and -self.axis_len[lab] <= v < self.axis_len[lab] and self.axis_len[lab] <= 64 and not self._in_generic_loop_over(lab, env):
+                    # x[k] = v at a fixed position of an axis of known length
+                    self.positional.append((lab, v, mod.path, sub.lineno))
+                    r_ = self._store_positions(old, [v % self.axis_len[lab]], val, t, mod, cond=self.path_cond_local())
+                    if r_ is None:
+                        setv(Unk('store at a constant position of a labelled axis', t))
+                        return
+                    setv(r_)
+                    _replace_aliases(env, old, r_)
+                    for fr_ in self.frames:
+                        if fr_ is not env:
+                            _replace_aliases(fr_, old, r_)
+                    return
                 elif isinstance(v, int) and not isinstance(v, bool):
                     self.positional.append((lab, v, mod.path, sub.lineno))
                     if lab is not None and self._in_generic_loop_over(lab, env):
@@ -1804,7 +1833,10 @@ class Interp:
         self.axis_len[newlab] = en_ - st_
         return Arr((newlab,) + rest, alg.array_fn('slice', lab, whole.poly, C(None) if st_ == 0 else P(num(st_)), P(num(en_)), C(None), out=newlab), unit=ref.unit, dt=ref.dt)
 
-    def _store_positions(self, old, positions, val, t, mod):
+    def path_cond_local(self):
+        return None
+
+    def _store_positions(self, old, positions, val, t, mod, cond=None):
         """the 1-d array ``old`` (axis of known length) after ``old[positions] = val``, position by position; None when the value does not fit"""
         lab = old.dims[0]
         n = self.axis_len[lab]
@@ -1849,10 +1881,24 @@ class Interp:
                                             up(node), 'a buffer created with the element type of a caller-supplied array' + (' (%s)' % ', '.join(src) if src else '') if old.dt == 'inherit' else 'an integer buffer',
                                             ' whenever the caller supplies integers there' if old.dt == 'inherit' else ''), t, mod.path))
 
+    def _concrete_elems(self, x):
+        """the elements of a 1-d array over a position-counting axis of known length (None for any other value)"""
+        if isinstance(x, Arr) and x.ndim == 1 and x.mask is None and self._positional(x.dims[0]) and self.axis_len[x.dims[0]] <= 64 and str(x.dims[0]).startswith('pos#'):
+            return [alg.index_at(x.poly, x.dims[0], num(j_)) for j_ in range(self.axis_len[x.dims[0]])]
+        return None
+
+    def _from_elems(self, like, elems):
+        lab = like.dims[0]
+        run = alg.sym('idx:' + lab, lab)
+        p = Poly()
+        for j_, e_ in enumerate(elems):
+            p = p + alg.mk_ind('==0', run - num(j_)) * e_
+        return Arr((lab,), p, None, like.unit, dt=like.dt)
+
     def _positional(self, lab):
         """an axis that only counts positions (a list made into an array, a fixed slice of one, concrete repeats), of known length: two such axes of the same
         length line up position by position, as numpy lines them up"""
-        return isinstance(lab, str) and lab in self.axis_len and (lab.startswith('pos#') or lab.startswith('rep#'))
+        return isinstance(lab, str) and lab in self.axis_len and (lab.startswith('pos#') or lab.startswith('rep#') or '[' in lab)
 
     def _relabel_axis(self, x, old, new):
         return x.with_(dims=tuple(new if d_ == old else d_ for d_ in x.dims), poly=alg.rename_labels(x.poly, {old: new}), mask=None if x.mask is None else alg.rename_labels(x.mask, {old: new}))
@@ -2364,9 +2410,9 @@ class Interp:
                 elif lo is None and hi is None and stp == -1:
                     poly = alg.array_fn('rev', lab, poly)
                     dims.append(lab)
-                elif stp is None and lo == 1 and hi is None and lab:
+                elif stp is None and lo == 1 and hi is None and lab and lab not in self.axis_len:
                     poly = alg.relabel(poly, lab, lab + '~', '@+1'); dims.append(lab + '~')
-                elif stp is None and lo is None and hi == -1 and lab:
+                elif stp is None and lo is None and hi == -1 and lab and lab not in self.axis_len:
                     poly = alg.relabel(poly, lab, lab + '~', '@0'); dims.append(lab + '~')
                 else:
                     sl = [self._as_arr(x) if x is not None else None for x in (lo, hi, stp)]
@@ -2864,6 +2910,10 @@ class Interp:
                 x, lo, hi = [self._as_arr(v) for v in (args[0], kw.get('a_min', args[1] if len(args) > 1 else None), kw.get('a_max', args[2] if len(args) > 2 else None))]
                 if any(isinstance(v, Unk) for v in (x, lo, hi)):
                     return Unk('clip', e)
+                el_ = self._concrete_elems(x)
+                if el_ is not None and lo.ndim == 0 and hi.ndim == 0:
+                    # an array of a few known positions: clipped position by position (no brackets of sums over the positions)
+                    return self._from_elems(x, [e_ + alg.lt(e_, lo.poly) * (lo.poly - e_) + alg.lt(hi.poly, e_) * (hi.poly - e_) for e_ in el_])
                 d = bdims(bdims(x.dims, lo.dims), hi.dims)
                 p = x.poly + alg.lt(x.poly, lo.poly) * (lo.poly - x.poly) + alg.lt(hi.poly, x.poly) * (hi.poly - x.poly)
                 return Arr(d, p, x.mask, x.unit)
@@ -2937,6 +2987,36 @@ class Interp:
                 r_ = self._concat_slices(list(args[0]), last)
                 if r_ is not None:
                     return r_
+            if last in ('hstack', 'concatenate') and args and isinstance(args[0], (list, tuple)) and args[0] and not kw.get('axis'):
+                # numbers and 1-d arrays of known length laid end to end: an array over a fresh axis that counts positions
+                elems_, unit_, ok_ = [], None, True
+                for x_ in args[0]:
+                    a_ = self._as_arr(x_)
+                    if not isinstance(a_, Arr) or a_.mask is not None or a_.ndim > 1:
+                        ok_ = False
+                        break
+                    if a_.ndim == 1:
+                        n_ = 1 if a_.dims[0] is None else self.axis_len.get(a_.dims[0])
+                        if n_ is None or n_ > 64:
+                            ok_ = False
+                            break
+                        elems_ += [a_.poly if a_.dims[0] is None else alg.index_at(a_.poly, a_.dims[0], num(j_)) for j_ in range(n_)]
+                    else:
+                        elems_.append(a_.poly)
+                    if unit_ is None:
+                        unit_ = a_.unit
+                    elif a_.unit is not None and not (a_.unit == unit_):
+                        ok_ = False
+                        break
+                if ok_ and len(elems_) <= 64:
+                    self._n_lists = getattr(self, '_n_lists', 0) + 1
+                    lab_ = 'pos#%d' % self._n_lists
+                    self.axis_len[lab_] = len(elems_)
+                    run_ = alg.sym('idx:' + lab_, lab_)
+                    p_ = Poly()
+                    for j_, e_ in enumerate(elems_):
+                        p_ = p_ + alg.mk_ind('==0', run_ - num(j_)) * e_
+                    return Arr((lab_,), p_, unit=unit_)
             if last == 'hstack' or last == 'concatenate':
                 parts = args[0] if args and isinstance(args[0], (list, tuple)) else []
                 sel = [x for x in parts if isinstance(x, _SelIdx)]
